@@ -97,7 +97,8 @@ func runC03(c *Ctx) {
 		"(3) in every C template each R<n>.<view> names the union view of the type with which that slot was popped/pushed; (4) non-commutative templates put the second-popped slot on the left; " +
 		"(5) the C operator / libm function / helper macro is the one for the mnemonic, unsigned mnemonics compute on unsigned views and signed ones do not, shift counts are masked with width-1, " +
 		"narrow loads extend with the mnemonic's signedness and transfer the mnemonic's width, and integer conversions do not narrow through a smaller integer type. " +
-		"NOT decided: trap behaviour of C operators (INT_MIN/-1, division by zero, out-of-range float->int), NaN propagation of fmin/fmax, memory bounds, control flow and calls."
+		"(6) around the templates: list pops last-to-first and pushes first-to-last, carried results moved upwards, the memory.grow condition cannot wrap, every register view is a member of the emitted val_t, float values are printed as hexadecimal floating constants, the rotate macros work on the unsigned value, x rem_s -1 is guarded. " +
+		"NOT decided: trap behaviour of C operators (division by zero, out-of-range float->int), NaN propagation of fmin/fmax, memory bounds, the stack model of blocks and branches beyond these rules, signed-overflow assumptions of optimising C compilers."
 	c.Trusted = []string{"go/packages, go/types (x/tools v0.29.0)", "embedded WebAssembly instruction table", "C operator / libm table in c03.go"}
 	c.Exhaust = true
 	p := c.Load(LoadOpt{Light: true}, "./internal/wat/token", "./internal/wat/watutil/wat2c")
@@ -117,6 +118,7 @@ func runC03(c *Ctx) {
 	c03SlotAliasing(c, p, by, ins)
 	c03MemoryGrow(c, p, by)
 	c03UnionMembers(c, p, pk)
+	c03IndexLoops(c, p, pk, 14)
 	c.Min("float-literal-exact", "float values written into the generated C code", floatLiteralExact(c, p, pk, []string{"//"}, ""), 6)
 	c03Prelude(c)
 	var names []string
